@@ -14,6 +14,17 @@ CLAIMS = {
         note="Trusted: TLC, the harness projection (cp.rs, ~100 lines), times finite and not -0.0; values on a 1/1000 lattice."),
 }
 
+CLAIMS["C05"] = dict(
+    category="model_checking", design_ref="DESIGN.md section 4, C05",
+    technique="TLA+ spec Framing (one action per branch of the decode driver) refined to a declarative framing rule, checked by TLC on all files up to a length bound; every TLC-generated file replayed into rosu-map in 4 encodings through a recording DecodeBeatmap implementor; trace validation (Trace_Framing) of per-line deliveries recorded on bundled and random files",
+    text="TLC proves, for every file of line kinds up to the bound, that the operational driver (version slot, use-current-line, first-section scan, section loop) computes exactly the declarative rule of the property, that blank/comment lines are outcome-neutral and that every behaviour terminates; the real driver is bound to the model in both directions: every enumerated file is decoded by the real code and compared with the predicted version and deliveries, and line-by-line recordings of the real driver on bundled and long random files must be behaviours of the same actions.",
+    note="Trusted: TLC, the spelling table + classifier in harness/src/framing.rs (self-checked), the byte-counting BufRead used to attribute deliveries to lines. Text decoding/line splitting is C08/C10.")
+CLAIMS["C07"] = dict(
+    category="model_checking", design_ref="DESIGN.md section 4, C07",
+    technique="TLA+ spec Framing with the decoder table Handles and invariant C07Projection checked by TLC; every TLC-generated file decoded by all nine real decoder types and compared field by field with Beatmap and with the fold over the decoder's handled deliveries",
+    text="The model states that the driver is decoder-independent and that a specialised decoder applies exactly the deliveries of the sections it handles; TLC checks this on every file up to the bound and the harness checks on every such file (records of all sections, valid and invalid) that each of the eight specialised decoders returns Beatmap's values for all shared fields.",
+    note="Trusted: TLC, the field lists in harness/src/framing.rs::c07_diffs (written from the public struct definitions). Deeper record contents are covered because the C06/C11/C12/C14 replays run the same comparison.")
+
 NOT_YET = "check not built yet in this round (planned, see DESIGN.md section 4)"
 NA = {
     "C17": "real-valued geometry (Hausdorff distance to Bezier/arc/Catmull curves): no discrete state or history for a TLA+ specification to decide; see DESIGN.md section 4, C17",
